@@ -19,7 +19,7 @@ ASSUMPTIONS = ['property models are monotone in T on 250-500 K for the drawn com
                'mixed temperature is required to land in 200-600 K, otherwise the case is counted as rejected (outside model range)',
                'tolerances from Mixture.T_tol = 1e-6 K (DESIGN.md section 4)']
 REQUIRED_CELLS = {'quick': ['mix:recv=S', 'mix:recv=M', 'mix:multi-inlet', 'mix:Q!=0', 'mix:heat-object', 'mix:self',
-                            'set:H', 'set:h', 'set:S', 'set:Hnet', 'set:multi', 'sep:multi', 'sep:other-at-mixture-T', 'mix:empty-inlet-lowest-P', 'mixvle:Q!=0', 'set:PR', 'set:T*=Tref', 'mix:all-inlets-at-Tref', 'set:composition-edit-before-same'], 'thorough': []}
+                            'set:H', 'set:h', 'set:S', 'set:Hnet', 'set:multi', 'sep:multi', 'sep:other-at-mixture-T', 'mix:empty-inlet-lowest-P', 'mixvle:Q!=0', 'set:PR', 'set:T*=Tref', 'mix:all-inlets-at-Tref', 'set:composition-edit-before-same', 'mixpr:self-above-min-P'], 'thorough': []}
 
 PKGS = ['A', 'B', 'C', 'D']
 T_TOL = 1e-6
@@ -85,6 +85,14 @@ def prop_mix(ch, ctx):
         recv = tmo.Stream(None, thermo=th, T=ch.float('recv.T', 250., 500.))
     else:
         recv = tmo.MultiStream(None, phases=('g', 'l'), thermo=th, T=ch.float('recv.T', 250., 500.))
+    # a phase stream (ms['g']) of a multi-phase inlet - possibly of the receiver itself - listed as a further inlet
+    nview = 0
+    parents = list({id(s): s for s in inlets if isinstance(s, tmo.MultiStream)}.values())
+    if parents and ch.choice('views', [0, 0, 0, 1]):
+        par = parents[ch.index('view.parent', len(parents))]
+        inlets.insert(ch.int('view.pos', 0, len(inlets)), par[ch.choice('view.phase', list(par.phases))])
+        nview = 1 + int(par is recv)
+        ctx.cell('mix:view-inlet' + ('-of-receiver' if par is recv else ''))
     Hs = [s.H for s in inlets]
     Ctot = sum(s.C for s in inlets)
     Q = dT * Ctot
@@ -100,7 +108,7 @@ def prop_mix(ch, ctx):
     Qsum = sum(parts)
     want = sum(Hs) + Qsum
     multi = any(sp['kind'] == 'M' for sp in specs)
-    region = f'recv={rkind},multi={int(multi)},self={int(self_idx >= 0)},n={min(n, 2)},op={op}'
+    region = f'recv={rkind},multi={int(multi)},self={int(self_idx >= 0)},n={min(n, 2)},op={op}' + (f',view={nview}' if nview else '')
     ctx.cell(f'mix:recv={rkind}')
     if multi: ctx.cell('mix:multi-inlet')
     if Q: ctx.cell('mix:Q!=0')
@@ -127,7 +135,7 @@ def prop_mix(ch, ctx):
     Ts = {round(sp['T'], 6) for sp in specs}
     ph = {tuple(sp['phases']) for sp in specs}
     if (n >= 2 and (len(Ts) > 1 or len(ph) > 1)) or Q or multi:
-        ctx.nontriv(['mix', op, [skey(s) for s in specs], rkind, self_idx, (Q > 0) - (Q < 0), nheat])
+        ctx.nontriv(['mix', op, [skey(s) for s in specs], rkind, self_idx, (Q > 0) - (Q < 0), nheat, nview])
 
 
 def prop_separate(ch, ctx):
@@ -341,9 +349,56 @@ def prop_setter(ch, ctx):
         ctx.nontriv(['set', X, skey(sp), T0 > Tstar])
 
 
+def prop_mix_pr(ch, ctx):
+    """mix_from on an equation-of-state package (Peng-Robinson): the enthalpy depends on pressure, so the balance
+    only closes if every inlet's enthalpy - the receiver's own included - is read at that inlet's pressure."""
+    pid = ch.choice('pkg', PKGS)
+    th = pr_package(pid)
+    tmo.settings.set_thermo(th)
+    n = ch.int('n', 2, 3)
+    self_idx = ch.int('self', -1, n - 1)
+    specs = []
+    for i in range(n):
+        sp = vs.draw_spec(ch, f'in{i}', [pid], kinds=('S',), phases=('g',), T=(300., 460.), P=(1e4, 3e5),
+                          lo_exp=-1, hi_exp=2, allow_empty=False)
+        if not any(sp['flows'][0]): sp['flows'][0][ch.index(f'in{i}.fill', len(sp['flows'][0]))] = 1.0
+        specs.append(dict(sp, pkg=th))
+    dT = ch.choice('Q.kind', [0.0, 0.0, None])
+    if dT is None: dT = ch.float('Q.dT', -20., 20.)
+    inlets = [vs.build(sp) for sp in specs]
+    recv = inlets[self_idx] if self_idx >= 0 else tmo.Stream(None, thermo=th, phase='g', T=ch.float('recv.T', 300., 460.))
+    Hs = [s.H for s in inlets]
+    Q = dT * sum(s.C for s in inlets)
+    want = sum(Hs) + Q
+    Pmin = min(s.P for s in inlets)
+    self_hiP = self_idx >= 0 and recv.P > Pmin
+    region = f'self={int(self_idx >= 0)},selfP={"high" if self_hiP else "min"},Q={int(bool(Q))}'
+    ctx.cell('mixpr:self-above-min-P' if self_hiP else 'mixpr:other')
+    ctx.call('mix_pr', recv.mix_from, inlets, energy_balance=True, Q=Q, region=region)
+    if not (290. < recv.T < 470.): ctx.reject('mixed temperature outside the range on which the EOS gas root is checked')
+    # monotone guard (as for the PR setter stratum): H(T) of the mixture increasing over the range
+    Tkeep = recv.T; prev = None
+    for Tg in np.linspace(270., 490., 45):
+        recv.T = float(Tg); val = recv.H
+        if prev is not None and not (val > prev):
+            recv.T = Tkeep; ctx.reject('equation-of-state enthalpy not increasing over 270-490 K (root switching)')
+        prev = val
+    recv.T = Tkeep
+    got = recv.H
+    err = abs(got - want)
+    tol = 100 * tol_H(recv, want)
+    ctx.metric_max('mixpr:H_err/tol', err / tol)
+    if err > tol:
+        ctx.fail(f'mix_pr|{region}|H-mismatch', f'H_out={got!r} want sum(H_in)+Q={want!r} (Q={Q!r}) T={recv.T} P={recv.P}')
+    if recv.P != Pmin:
+        ctx.fail(f'mix_pr|{region}|P-not-min', f'P_out={recv.P!r} min P={Pmin!r}')
+    ctx.nontriv(['mixpr', [skey(s) for s in specs], self_idx, self_hiP, (Q > 0) - (Q < 0)])
+
+
 PROPS = {
     'mix': (prop_mix, 1200, 60000),
     'mix_vle': (prop_mix_vle, 320, 12000),
     'separate': (prop_separate, 500, 25000),
     'setter': (prop_setter, 1500, 60000),
+    'mix_pr': (prop_mix_pr, 320, 12000),
 }
